@@ -834,7 +834,7 @@ func TestC15(t *testing.T) {
 	}
 
 	// ---- random histories ----
-	n := e.Pick(360, 4000)
+	n := e.Pick(360, 2000)
 	for i := 0; i < n; i++ {
 		c := genConfig(r)
 		synthetic := i%3 == 2
@@ -865,7 +865,7 @@ func TestC15(t *testing.T) {
 	}
 
 	// ---- hashBits.Next against the transcribed next ----
-	nn := e.Pick(400, 3000)
+	nn := e.Pick(400, 2000)
 	for i := 0; i < nn; i++ {
 		bl := 8
 		if r.Intn(4) == 0 {
